@@ -39,6 +39,55 @@ def canonical_trace(r):
     return out
 
 
+def check_mac_unit(rep, ctx):
+    """'MAC over that canonical string': what compute_signature (named by the route obligations) feeds the MAC - the key is the hex
+    decoding of its first argument, the data is its second argument itself (not a converted copy), the result is the hex of finalize()"""
+    from p_c08 import derives
+    try:
+        w = ctx.one("helpers::compute_signature")
+    except Inconclusive as ex:
+        rep.add(Query("compute_signature located", "inconclusive", str(ex), 0, "mirsym", key="C04.mac-unit"))
+        return
+    eng = ctx.engine(loop_bound=1)
+    eng.auto_inline = ctx.new_function_auto()
+    n = 0
+    for i, r in enumerate(eng.explore(w)):
+        if not (r.status == "return" and isinstance(r.ret, Agg) and r.ret.variant == "Ok"):
+            continue
+        n += 1
+        ev = r.events
+        dec = [e for e in ev if e.kind == "call" and re.search(r"(^|::)decode$", e.callee)]
+        new = [e for e in ev if e.kind == "call" and e.callee.endswith("HMAC::new")]
+        upd = [e for e in ev if e.kind == "call" and e.callee.endswith("HMAC::update")]
+        fin = [e for e in ev if e.kind == "call" and re.search(r"HMAC::finalize$", e.callee)]
+        enc = [e for e in ev if e.kind == "call" and re.search(r"(^|::)encode$", e.callee)]
+        ok = len(dec) == 1 and same_origin(dec[0].rargs[0], r.args[0]) and len(new) == 1 and derives(new[0].rargs[0], dec[0].ret, ev) and \
+            len(upd) == 1 and same_origin(upd[0].rargs[0], new[0].ret) and same_origin(upd[0].rargs[1], r.args[1]) and \
+            len(fin) == 1 and same_origin(fin[0].rargs[0], new[0].ret) and ev.index(upd[0]) < ev.index(fin[0]) and \
+            len(enc) == 1 and same_origin(enc[0].rargs[0], fin[0].ret) and same_origin(r.ret.fields[0], enc[0].ret)
+        detail = "update argument %r" % (upd[0].rargs[1] if upd else None,)
+        rep.add(Query("compute_signature path %d: hex(HMAC(hex-decoded key).update(the given bytes, unchanged).finalize())" % i, "holds" if ok else "violated", detail[:160], 0, "mirsym", key="C04.mac-unit", reproduced=None))
+    rep.functions_encoded.append(w)
+    rep.add(Query("witness: compute_signature has a signing path", "witness-hit" if n else "witness-missed", "%d" % n, 0, "mirsym"))
+
+
+MAC_TEST = '''
+#[cfg(test)]
+mod verif_battery_c04_mac {
+    #[test]
+    fn c04_mac_is_computed_over_the_bytes_given() {
+        // RFC 4231 test case 2 (text) and a binary input: two inputs that differ only in bytes that are not valid UTF-8 sign differently
+        assert_eq!(super::compute_signature("4a656665", b"what do ya want for nothing?").unwrap(), "5bdcc146bf60754e6a042426089575c75a003f089d2739839dec58b964ec3843");
+        let a = super::compute_signature("4a656665", &[0x1f, 0x8b, 0x08, 0xff, 0xfe, 0x00]).unwrap();
+        let b = super::compute_signature("4a656665", &[0x1f, 0x8b, 0x08, 0xfd, 0xfc, 0x00]).unwrap();
+        assert_ne!(a, b, "two binary bodies that differ in non-UTF-8 bytes got the same MAC");
+        // RFC 4231 test case 3: 20 x 0xaa key, 50 x 0xdd data
+        assert_eq!(super::compute_signature(&"aa".repeat(20), &[0xddu8; 50]).unwrap(), "773ea91e36800e46854db8ebd09181a72959098b3ef8c122d9635514ced565fe");
+    }
+}
+'''
+
+
 def check(rep, tier, seed):
     ctx = Ctx("agent")
     rep.extra["mir_dump"] = {"cache_hit": ctx.dump.cache_hit, "tree_hash": ctx.dump.hash, "seconds": round(ctx.dump.seconds, 1)}
@@ -161,6 +210,11 @@ def check(rep, tier, seed):
     rep.add(Query("witness: build_request has signed paths", "witness-hit" if n else "witness-missed", "%d" % n, 0, "mirsym"))
     rep.bounds["build_request"] = "header loop bound 2 (<=2 caller headers); %d paths" % len(rb)
     check_canonicalisers(rep, ctx, tier)
+    check_mac_unit(rep, ctx)
+    import p_c02
+    p_c02.check_query_pairs(rep, ctx, "C04")          # both canonicalisers see the query through it
+    import batteries
+    batteries.confirm(rep, "C04")
     # exemption list semantics (shared with C15)
     p_c15.skip_sig_semantics(rep, ctx, "C04")
     rep.assumptions += ["a latched key is valid hex, so compute_signature succeeds (the failure branch relays unsigned and is reported by the host as an authentication error)",
